@@ -201,7 +201,7 @@ def replay(doc):
 
 
 def jobs(tier, seed):
-    n, shards = (6000, 8) if tier == "quick" else (80000, 16)
+    n, shards = (6000, 8) if tier == "quick" else (240000, 16)
     out = []
     for k in range(shards):
         job = {"name": "msgs-%d" % k, "kind": "msgs", "n": n // shards, "seed": seed * 1000 + k,
